@@ -4,6 +4,8 @@ package main
 
 import (
 	"fmt"
+	"go/ast"
+	"go/constant"
 	"go/token"
 	"go/types"
 	"os"
@@ -18,6 +20,7 @@ import (
 )
 
 type compiledSpec struct {
+	absDef string // defining axiom of an abstract spec
 	params []Ty
 	ret    Ty
 	heaps  []string
@@ -386,7 +389,62 @@ func (c *Ctx) globalConstByObj(g *FnGen, o *types.Var) (string, bool) {
 	return c.globalConstT(c.globalKey(o.Pkg(), o.Name()), o.Type())
 }
 
+// byteSliceInit finds the initialiser of a package-level []byte variable written as a
+// composite literal of constants (the key prefixes) and returns its bytes.
+func (c *Ctx) byteSliceInit(key string) (string, bool) {
+	i := strings.LastIndex(key, ".")
+	if i < 0 {
+		return "", false
+	}
+	pp, name := key[:i], key[i+1:]
+	for _, p := range c.pkgs {
+		if p.PkgPath != pp {
+			continue
+		}
+		for _, f := range p.Syntax {
+			for _, d := range f.Decls {
+				gd, ok := d.(*ast.GenDecl)
+				if !ok || gd.Tok != token.VAR {
+					continue
+				}
+				for _, sp := range gd.Specs {
+					vs := sp.(*ast.ValueSpec)
+					for k, n := range vs.Names {
+						if n.Name != name || k >= len(vs.Values) {
+							continue
+						}
+						cl, ok := vs.Values[k].(*ast.CompositeLit)
+						if !ok {
+							return "", false
+						}
+						var bs []byte
+						for _, e := range cl.Elts {
+							tv, ok := p.TypesInfo.Types[e]
+							if !ok || tv.Value == nil {
+								return "", false
+							}
+							v, ok := constant.Int64Val(tv.Value)
+							if !ok || v < 0 || v > 255 {
+								return "", false
+							}
+							bs = append(bs, byte(v))
+						}
+						return string(bs), true
+					}
+				}
+			}
+		}
+	}
+	return "", false
+}
+
 func (c *Ctx) globalConstT(key string, et types.Type) (string, bool) {
+	if isByteSlice(et) {
+		if bs, ok := c.byteSliceInit(key); ok {
+			c.assumptionsUsed["A-GLOBALBYTES: package-level []byte key prefixes keep their initial value (never reassigned)"] = true
+			return c.reg.strLit(bs), true
+		}
+	}
 	if n, ok := et.(*types.Named); ok && n.Obj().Name() == "error" && n.Obj().Pkg() == nil {
 		c.assumptionsUsed["A-GLOBALERR: package-level error variables are non-nil, pairwise distinct and never reassigned"] = true
 		ref := c.globalRefKey(key)
@@ -616,6 +674,10 @@ func (c *Ctx) compiledSpec(sf *SpecFun) *compiledSpec {
 				}
 				appl := app(sf.Name, names...)
 				cs.def = fmt.Sprintf("(declare-fun %s (%s) %s)\n(assert (forall (%s) (! (= %s %s) :pattern (%s))))", sf.Name, strings.Join(sorts, " "), cs.ret.sort, strings.Join(ps, " "), appl, body.term, appl)
+				if sf.Abstract {
+					cs.def = fmt.Sprintf("(declare-fun %s (%s) %s)", sf.Name, strings.Join(sorts, " "), cs.ret.sort)
+					cs.absDef = fmt.Sprintf("(assert (forall (%s) (! (= %s %s) :pattern (%s))))", strings.Join(ps, " "), appl, body.term, appl)
+				}
 			}
 			cs.done = true
 			c.specOrder = append(c.specOrder, sf.Name)
@@ -742,11 +804,14 @@ func (c *Ctx) lemmaObligations(name string) ([]*Obligation, error) {
 		b.WriteString(fmt.Sprintf("(assert (forall (%s) %s))\n", strings.Join(kept, " "), ibody))
 	}
 	b.WriteString("(assert " + req + ")\n(assert (not " + ens + "))\n")
-	o := &Obligation{Name: "lemma:" + name, Fn: "lemma:" + name, Kind: "lemma", Src: "lemma " + name, Where: lm.Where, Query: b.String(), NoLemmas: true}
+	o := &Obligation{Name: "lemma:" + name, Fn: "lemma:" + name, Kind: "lemma", Src: "lemma " + name, Where: lm.Where, Query: b.String(), NoLemmas: true, Native: lm.Theory == "strings"}
 	return []*Obligation{o}, nil
 }
 
 type preItem struct {
+	absDef  bool
+	native  string // alternative text under the native string theory
+	auto    bool
 	name    string
 	trig    []string // spec symbols in the triggers (lemmas): all must be needed for the lemma to be usable
 	text    string
@@ -756,6 +821,7 @@ type preItem struct {
 }
 
 type Prelude struct {
+	baseNative string
 	post  string // heap-lemma instances of the last For() call (must follow the query's declarations)
 	base  string
 	items []preItem
@@ -796,11 +862,16 @@ func (c *Ctx) prelude() *Prelude {
 	for _, l := range c.lemmas {
 		lemAx = append(lemAx, c.lemmaAxiom(l))
 	}
+	c.reg.strLit("")
+	var bn strings.Builder
+	bn.WriteString(c.reg.prelude(true))
+	bn.WriteString("(define-fun sidx ((s Str) (i Int)) Int (str.to_code (str.at s i)))\n(define-fun ssub ((s Str) (lo Int) (hi Int)) Str (str.substr s lo (- hi lo)))\n(define-fun chr ((n Int)) Str (str.from_code n))\n(define-fun slt ((a Str) (b Str)) Bool (str.< a b))\n")
 	var b strings.Builder
-	b.WriteString(c.reg.prelude())
+	b.WriteString(c.reg.prelude(false))
 	if c.needSidx {
 		b.WriteString("(declare-fun sidx (Str Int) Int)\n(declare-fun ssub (Str Int Int) Str)\n(declare-fun chr (Int) Str)\n")
 	}
+	common := &strings.Builder{}
 	if c.needSlt {
 		b.WriteString("(declare-fun slt (Str Str) Bool)\n")
 		b.WriteString("(assert (forall ((a Str)) (! (not (slt a a)) :pattern ((slt a a)))))\n")
@@ -810,17 +881,17 @@ func (c *Ctx) prelude() *Prelude {
 	}
 	if c.needBits {
 		for _, op := range []string{"<<", ">>", "&", "|", "^", "&^"} {
-			fmt.Fprintf(&b, "(declare-fun bits_%s (Int Int) Int)\n", sanitize(op))
+			fmt.Fprintf(common, "(declare-fun bits_%s (Int Int) Int)\n", sanitize(op))
 		}
 	}
 	if c.needFloat {
-		b.WriteString("(declare-fun fzero () Float)\n(declare-fun fadd (Float Float) Float)\n(declare-fun fsub (Float Float) Float)\n(declare-fun fmul (Float Float) Float)\n(declare-fun fdiv (Float Float) Float)\n(declare-fun flt (Float Float) Bool)\n(declare-fun i2f (Int) Float)\n(declare-fun f2i (Float) Int)\n")
+		common.WriteString("(declare-fun fzero () Float)\n(declare-fun fadd (Float Float) Float)\n(declare-fun fsub (Float Float) Float)\n(declare-fun fmul (Float Float) Float)\n(declare-fun fdiv (Float Float) Float)\n(declare-fun flt (Float Float) Bool)\n(declare-fun i2f (Int) Float)\n(declare-fun f2i (Float) Int)\n")
 		for s, n := range c.floatLits {
-			fmt.Fprintf(&b, "(declare-fun %s () Float) ; %s\n", n, s)
+			fmt.Fprintf(common, "(declare-fun %s () Float) ; %s\n", n, s)
 		}
 	}
 	for ds := range c.cardSorts {
-		fmt.Fprintf(&b, "(declare-fun card_%s (%s) Int)\n(assert (forall ((d %s)) (! (>= (card_%s d) 0) :pattern ((card_%s d)))))\n", sanitize(heapName(ds)), ds, ds, sanitize(heapName(ds)), sanitize(heapName(ds)))
+		fmt.Fprintf(common, "(declare-fun card_%s (%s) Int)\n(assert (forall ((d %s)) (! (>= (card_%s d) 0) :pattern ((card_%s d)))))\n", sanitize(heapName(ds)), ds, ds, sanitize(heapName(ds)), sanitize(heapName(ds)))
 	}
 	var cs []string
 	for srt := range c.codecs {
@@ -829,9 +900,9 @@ func (c *Ctx) prelude() *Prelude {
 	sort.Strings(cs)
 	for _, srt := range cs {
 		n := sanitize(srt)
-		fmt.Fprintf(&b, "(declare-fun enc_%s (%s) Str)\n(declare-fun dec_%s (Str) %s)\n(assert (forall ((v %s)) (! (= (dec_%s (enc_%s v)) v) :pattern ((enc_%s v)))))\n", n, srt, n, srt, srt, n, n, n)
+		fmt.Fprintf(common, "(declare-fun enc_%s (%s) Str)\n(declare-fun dec_%s (Str) %s)\n(assert (forall ((v %s)) (! (= (dec_%s (enc_%s v)) v) :pattern ((enc_%s v)))))\n", n, srt, n, srt, srt, n, n, n)
 	}
-	p := &Prelude{base: b.String()}
+	p := &Prelude{base: b.String() + common.String(), baseNative: bn.String() + common.String()}
 	for _, n := range c.specOrder {
 		def := c.compiled[n].def
 		var uses []string
@@ -840,13 +911,25 @@ func (c *Ctx) prelude() *Prelude {
 				uses = append(uses, u)
 			}
 		}
-		p.items = append(p.items, preItem{text: def, defines: n, uses: uses})
+		it := preItem{text: def, defines: n, uses: uses}
+		if sf := c.specs[n]; sf != nil && sf.Native != "" {
+			cs := c.compiled[n]
+			var ps []string
+			for i, pp := range sf.Params {
+				ps = append(ps, fmt.Sprintf("(a_%s %s)", pp.Name, cs.params[i].sort))
+			}
+			it.native = fmt.Sprintf("(define-fun %s (%s) %s %s)", n, strings.Join(ps, " "), cs.ret.sort, sf.Native)
+		}
+		p.items = append(p.items, it)
+		if ad := c.compiled[n].absDef; ad != "" {
+			p.items = append(p.items, preItem{text: ad, uses: append(c.specSymbolsIn(ad), n), lemma: true, name: "def:" + n, absDef: true})
+		}
 	}
 	for _, a := range ax {
 		p.items = append(p.items, preItem{text: a, uses: c.specSymbolsIn(a)})
 	}
 	for i, l := range lemAx {
-		it := preItem{text: l, uses: c.specSymbolsIn(l), lemma: true, name: c.lemmas[i].Name}
+		it := preItem{text: l, uses: c.specSymbolsIn(l), lemma: true, name: c.lemmas[i].Name, auto: c.lemmas[i].Auto}
 		if j := strings.Index(l, ":pattern"); j >= 0 && len(c.lemmas[i].Triggers) > 0 {
 			it.trig = c.specSymbolsIn(l[j:])
 		}
@@ -857,7 +940,7 @@ func (c *Ctx) prelude() *Prelude {
 
 // For selects the prelude items relevant to a query: spec functions it
 // mentions (transitively), and the axioms / lemmas that talk about them.
-func (p *Prelude) For(query string, noLemmas bool, uses []string) (string, string) {
+func (p *Prelude) For(query string, noLemmas bool, uses []string, native bool) (string, string) {
 	usesSet := map[string]bool{}
 	for _, u := range uses {
 		usesSet[u] = true
@@ -875,11 +958,13 @@ func (p *Prelude) For(query string, noLemmas bool, uses []string) (string, strin
 	for changed := true; changed; {
 		changed = false
 		for i, it := range p.items {
-			if include[i] || (it.lemma && noLemmas) {
+			if include[i] || (it.lemma && noLemmas && !it.absDef) {
 				continue
 			}
 			take := false
-			if it.lemma {
+			if it.absDef {
+				take = (native || usesSet[it.name]) && needed[it.uses[len(it.uses)-1]]
+			} else if it.lemma && !it.auto {
 				take = usesSet[it.name]
 			} else if it.defines != "" {
 				take = needed[it.defines]
@@ -912,9 +997,17 @@ func (p *Prelude) For(query string, noLemmas bool, uses []string) (string, strin
 		}
 	}
 	var b strings.Builder
-	b.WriteString(p.base)
+	if native {
+		b.WriteString(p.baseNative)
+	} else {
+		b.WriteString(p.base)
+	}
 	for i, it := range p.items {
 		if !include[i] {
+			continue
+		}
+		if native && it.native != "" {
+			b.WriteString(it.native + "\n")
 			continue
 		}
 		if strings.HasPrefix(it.text, ";;HEAPLEMMA ") {
